@@ -210,6 +210,8 @@ def run(ctx):
         "sessions run in real time with the mailbox layer's own timeouts; the harness waits "
         "up to 60 s for each expected event, so an unmet expectation means tens of seconds "
         "without progress, not a slow machine",
-        "the gRPC transport is the grpcTransport (HashMailClient) variant; the websocket "
-        "transport differs only in the envelope (checked under C07/C19)",
+        "most sessions use the grpcTransport (HashMailClient given directly); the ws-* sessions "
+        "use the real websocketTransport through harness/wsrelay, a REST/websocket front door "
+        "of the stand-in on the loopback interface that presents the two streaming calls the "
+        "way grpc-gateway's websocket proxy does",
     ])
